@@ -805,6 +805,12 @@ class Function(Ring):
         # STEP 2: call the function
         # print 'func=',func
         # print 'args=',args
+        if Fout is not None and setitem is None and is_set(Fout.setitem):
+            # re-evaluation of a recorded in-place buffer write: the contents
+            # that are about to be overwritten depend on the current inputs,
+            # so they have to be saved again for the reverse sweep
+            sl = Fout.setitem[0]
+            setitem = (sl, operator.getitem(args[0], sl).copy())
         out  = func(*args, **Fkwargs)
 
         # STEP 3: create new Function instance for output
